@@ -12,7 +12,7 @@ import (
 
 // Generators --------------------------------------------------------------------------------------------
 
-var bases = []string{"", "", "/", "/api", "/api/", "/api/v1", "/a", "/a/", "/v.1/x-y/"}
+var bases = []string{"", "", "/", "/api", "/api/", "/api/v1", "/a", "/a/", "/v.1/x-y/", "/api//v1", "/api/./v1/", "//a"} // the last three need cleaning (r6)
 
 // a tiny literal vocabulary, so that templates share prefixes and collide with each other and with values
 var lits = []string{"a", "b", "ab", "pets", "v.1", "x-y", "~", "a_b", "..a", "a.", "0", "api"}
@@ -373,6 +373,9 @@ func genReqs(t *rapid.T, c Case, n int, vocab []string) []Req {
 		if rapid.IntRange(0, 4).Draw(t, "foreign-accept") == 0 {
 			r.Accept = rapid.SampledFrom([]string{"text/csv", "image/png", "application/xml;q=0.5", "text/html, image/*"}).Draw(t, "accept")
 		}
+		if rapid.IntRange(0, 7).Draw(t, "context-over") == 0 {
+			r.Ctx = rapid.SampledFrom([]string{"cancelled", "expired"}).Draw(t, "context")
+		}
 		if _, err := readRequest(r); err != nil {
 			continue // only request lines net/http can deliver
 		}
@@ -641,6 +644,9 @@ func Classify(c Case) (bool, []string) {
 	default:
 		labels["base: plain"] = true
 	}
+	if strings.Contains(c.Base, "//") || strings.Contains(c.Base, "/./") {
+		labels["base: spelled with duplicate slashes or a '.' segment"] = true
+	}
 	if len(c.Tmpls) >= 50 {
 		labels["table ≥50 templates"] = true
 	}
@@ -666,6 +672,9 @@ func Classify(c Case) (bool, []string) {
 		}
 		if r.Accept != "" && e.Winner < 0 {
 			labels["miss with an Accept header that names nothing the API produces"] = true
+		}
+		if r.Ctx != "" {
+			labels["request whose context is already cancelled or past its deadline"] = true
 		}
 		upper := r.Method == strings.ToUpper(r.Method)
 		if !upper {
